@@ -138,6 +138,10 @@ func (s *SelfManaged) addMembers(members ...*Member) {
 }
 
 func (s *SelfManaged) removeMember(member *Member) {
+	if member == nil {
+		// no member with the reported address: nothing to remove.
+		return
+	}
 	if s.members.Contains(member) {
 		s.members.Remove(member)
 	}
